@@ -136,6 +136,11 @@ pub struct Expect {
     pub consumed_http: usize,
     /// expected reports for which the log holds no answer (never sent, or the log was cut short)
     pub reports_without_answer: usize,
+    /// environment questions the responses required but the library never asked (the log has a result, yet no such
+    /// call): the flow diverged from the documented path
+    pub missing: Vec<&'static str>,
+    /// the library stopped retrying although another attempt was allowed (permitted: retries are optional)
+    pub gave_up_early: bool,
     pub forged_exchange: bool,
 }
 
@@ -238,10 +243,30 @@ pub fn walk_check(inp: &CheckInputs) -> Expect {
         e.last_contact_updated = Some(false);
         e.failure_reason = Some(reason);
     };
+    let mut last_fail: Option<(String, &'static str)> = None;
     loop {
+        let a = match http.next() {
+            Some(a) => {
+                e.consumed_http += 1;
+                *a
+            }
+            None => {
+                // no further attempt in the log
+                if k == 1 {
+                    return e; // not even one attempt: the log was cut short
+                }
+                // the library gave up after k-1 attempts although a retry was allowed; retries are optional, so
+                // the check simply ends with the last failure
+                e.gave_up_early = true;
+                e.backoffs.pop();
+                let (class, reason) = last_fail.clone().unwrap();
+                fail(&mut e, class, reason);
+                e.complete = true;
+                return e;
+            }
+        };
         e.requests.push(ReqExpect::UpdateCheck { attempt: k });
         e.attempts = k;
-        let a = next_http!();
         let retry_ok = |poll: &PollReading| k < 3 && poll_in_force(poll) == Some(false);
         let retry_unknown = |poll: &PollReading| k < 3 && poll_in_force(poll).is_none();
         match a {
@@ -254,6 +279,7 @@ pub fn walk_check(inp: &CheckInputs) -> Expect {
                 if retry_ok(&poll) {
                     e.backoffs.push(k);
                     k += 1;
+                    last_fail = Some(("request:transport".into(), "network"));
                     continue;
                 }
                 fail(&mut e, "request:transport".into(), "network");
@@ -286,6 +312,7 @@ pub fn walk_check(inp: &CheckInputs) -> Expect {
                     if retry_ok(&poll) {
                         e.backoffs.push(k);
                         k += 1;
+                        last_fail = Some((format!("request:http-status:{status}"), "network"));
                         continue;
                     }
                     fail(&mut e, format!("request:http-status:{status}"), "network");
@@ -366,7 +393,10 @@ pub fn walk_check(inp: &CheckInputs) -> Expect {
             .collect()
     };
     e.plan_attempted = true;
-    let Some(plan) = inp.plans.first() else { return e };
+    let Some(plan) = inp.plans.first() else {
+        e.missing.push("try_create_install_plan (an update was offered)");
+        return e;
+    };
     match plan {
         Err(_) => {
             e.states.push(StateView::Installing);
@@ -381,7 +411,10 @@ pub fn walk_check(inp: &CheckInputs) -> Expect {
         }
         Ok(id) => e.plan_created = Some(id.clone()),
     }
-    let Some(cs) = inp.can_start.first().copied() else { return e };
+    let Some(cs) = inp.can_start.first().copied() else {
+        e.missing.push("update_can_start (an install plan was created)");
+        return e;
+    };
     e.can_start = Some(cs);
     match cs {
         1 => {
@@ -404,7 +437,10 @@ pub fn walk_check(inp: &CheckInputs) -> Expect {
     e.states.push(StateView::Installing);
     report!("download started", offered_events(13, 1, None), false);
     e.install_attempted = true;
-    let Some(results) = inp.installs.first() else { return e };
+    let Some(results) = inp.installs.first() else {
+        e.missing.push("perform_install (the policy approved the plan)");
+        return e;
+    };
     e.install_results = (*results).clone();
     // per-app result events, for known offered apps, in response (offered) order
     let mut per_app = vec![];
@@ -462,7 +498,10 @@ pub fn walk_check(inp: &CheckInputs) -> Expect {
         e.complete = true;
         return e;
     }
-    let Some(rn) = inp.reboot_needed.first().copied() else { return e };
+    let Some(rn) = inp.reboot_needed.first().copied() else {
+        e.missing.push("reboot_needed (an install finished without a failed app)");
+        return e;
+    };
     e.reboot_pending = Some(rn);
     e.complete = true;
     e
